@@ -487,10 +487,6 @@ pub struct OptShape {
 }
 
 impl OptShape {
-    pub fn is_default(&self) -> bool {
-        *self == OptShape::default()
-    }
-
     pub fn build(&self) -> sst::log::LogOptions {
         use arrrg::CommandLine;
         let mut args: Vec<String> = vec![];
